@@ -28,12 +28,17 @@ def main():
         wt = "/tmp/wt_mut_%d_%s" % (os.getpid(), m["id"].replace("/", "_"))
         sh(["git", "-C", "/repo", "worktree", "add", "-q", "--detach", wt, "HEAD"])
         try:
-            path = os.path.join(wt, m["file"])
-            src = open(path).read()
-            cnt = src.count(m["old"])
-            if cnt != m.get("count", 1):
-                rows.append((m["id"], "-", "-", "BAD-PATTERN(%d matches)" % cnt)); print(rows[-1]); continue
-            open(path, "w").write(src.replace(m["old"], m["new"]))
+            if m.get("revert_commit"):
+                r = sh(["git", "-C", wt, "revert", "--no-commit", m["revert_commit"]])
+                if r.returncode != 0:
+                    rows.append((m["id"], "-", "-", "BAD-PATTERN(revert failed: %s)" % r.stdout[-200:])); print(rows[-1]); continue
+            else:
+                path = os.path.join(wt, m["file"])
+                src = open(path).read()
+                cnt = src.count(m["old"])
+                if cnt != m.get("count", 1):
+                    rows.append((m["id"], "-", "-", "BAD-PATTERN(%d matches)" % cnt)); print(rows[-1]); continue
+                open(path, "w").write(src.replace(m["old"], m["new"]))
             pkg = "./" + os.path.dirname(m["file"]) + "/..."
             t = sh(["go", "test", "-vet=off", "-count=1", "-timeout", "300s", pkg], cwd=wt, env=ENV)
             if "[build failed]" in t.stdout or "cannot" in t.stdout and "FAIL" in t.stdout and "--- FAIL" not in t.stdout:
